@@ -1056,3 +1056,21 @@ pub fn run_c15(cfg: &Cfg) {
     }
     rep.finish("metamorphic pairs on Linear, Bilinear (independent factors for x and y) and CubicSpline scenarios with every boundary kind: data * c (c = -1, 2^-20..2^20, random dyadic; boundary derivative values converted), axis and queries * 2^k, axis and queries shifted on a common dyadic grid, sum of two data sets; in range and extrapolated; exact run: relation holds exactly; f64: bit-for-bit for powers of two and negation; transformed scenarios also compared with the model in Coq");
 }
+
+/// f64 spline interpolator over dynamic-dimensional owned data (for C17's shared-object histories)
+pub fn build_spline_f64(sc: &Scen1) -> Option<ndarray_interp::interp1d::Interp1D<ndarray::OwnedRepr<f64>, ndarray::OwnedRepr<f64>, IxDyn, ndarray_interp::interp1d::cubic_spline::CubicSplineStrategy<ndarray::OwnedRepr<f64>, IxDyn>>> {
+    let bc = match &sc.strat { Strat1::Spline(b) => b.clone(), _ => return None };
+    let data = make_data::<f64>(&sc.rows, &sc.trail);
+    let boundary: BoundaryCondition<f64, IxDyn> = match &bc {
+        Bc::NotAKnot => BoundaryCondition::NotAKnot,
+        Bc::Natural => BoundaryCondition::Natural,
+        Bc::Clamped => BoundaryCondition::Clamped,
+        Bc::Periodic => BoundaryCondition::Periodic,
+        Bc::Individual(rbs, shape) => {
+            let v: Vec<RowBoundary<f64>> = rbs.iter().map(crate::scen::rowbc_pub::<f64>).collect();
+            BoundaryCondition::Individual(ndarray::ArrayD::from_shape_vec(IxDyn(shape), v).unwrap())
+        }
+    };
+    let strat = CubicSpline::new().extrapolate(sc.ext).boundary(boundary);
+    Interp1DBuilder::new(data).x(Array1::from(sc.axis_vals())).strategy(strat).build().ok()
+}
